@@ -481,7 +481,11 @@ func (s *Scheduler) run(emitter Emitter, freq time.Duration) {
 				}
 				// With continueOnError, mark invalid directly dependent jobs,
 				// append non-sentinel errors, and continue the scheduler loop.
-				if !errors.Is(err, errJobInvalid) {
+				// The sentinel is only ever posted as is by a worker, so
+				// compare identities: errors.Is would also match a job's
+				// own error whose Is method accepts foreign errors, and
+				// that failure would go unreported.
+				if err != errJobInvalid {
 					s.err = multierr.Append(s.err, err)
 				}
 				for _, consumer := range job.consumers {
